@@ -74,7 +74,7 @@ add("C18", "proof",
 
 add("C16", "proof",
     "Theorems introspection_runWriter and introspection_specWrite: for every file the writer model produces, and for every file the independent writer PQ.specWrite produces (any page split, codec, optional metadata, empty row groups), ReadMetaData is the footer the independent parser decodes and PageHeaders is exactly one header per data page in file order with the walked counts and sizes; at_zero_one_header, meta_is_footer. Lean mirrors of ReadMetaData / PageHeaders / PageHeadersAtOffset are compared field by field with the Go functions and with the independent walk of PQ.parseFile (from every page start: the shortest run of headers covering n, exactly one for n = 0) on files with page headers from a few dozen bytes to > 128 KiB.",
-    PROOF_NOTE + " PageHeadersAtOffset started at a page that is not the first of its chunk is decided by the correspondence and the walk; from a chunk start the covering statement is a theorem (pageHeadersAt_chunk_cover).",
+    PROOF_NOTE + " PageHeadersAtOffset started at the first or at any later page of a chunk: the shortest run of headers covering n is a theorem for both writers (pageHeadersAt_chunk_cover, pageHeadersAt_page_cover, pageHeadersAt_spPageCover); an offset that is not a page start is outside the property (no header starts there).",
     "Lean 4 mirrors + independent walk as oracle", "DESIGN.md §6 C16")
 
 add("C13", "proof",
